@@ -46,3 +46,19 @@ package hotreload
 //@   ensures nreload() == old(nreload()) || nreload() == old(nreload()) + 1
 //@   loop 1 invariant rm.reloadCount == atlock(rm.reloadCount) + 1 && heldw(addr(rm.mu)) && nreload() == old(nreload())
 //@   loop 2 invariant rm.reloadCount == atlock(rm.reloadCount) + 1 && heldw(addr(rm.mu)) && nreload() == old(nreload())
+
+// ---- file watcher (C19: a later edit always takes effect) -----------------------------------
+// A file the walk registers as present is always hashed, and a hash that differs from the recorded
+// one (or a file not recorded yet) is always reported as a change and recorded: the watcher never
+// decides "unchanged" from anything but the content hash.
+//@ ghost nhash() int
+//@ func (*FileWatcher).hashFile
+//@   trusted
+//@   modifies ghost(nhash)
+//@   ensures nhash() == old(nhash()) + 1
+//@ func (*FileWatcher).detectChanges$1
+//@   requires w != nil && w.fileHashes != nil && currentFiles != nil
+//@   unknowncalls like dyncall
+//@   dyncall modifies nothing
+//@   ensures has(currentFiles, path) && !old(has(currentFiles, path)) ==> nhash() == old(nhash()) + 1
+//@   checkif local(err) == nil && (!old(has(w.fileHashes, path)) || old(w.fileHashes[path]) != hash) ==> len(changes) == old(len(changes)) + 1 && has(w.fileHashes, path) && w.fileHashes[path] == hash
